@@ -3,7 +3,7 @@
    The dirty log is page number -> bool, page = guest address / 4096 (PS); [vrun ops st] runs any sequence of
    Reader / VirtioFsWriter operations (plain and split handles) from state st. *)
 From Coq Require Import List NArith Bool Permutation.
-From FB Require Import Model.Transport Proofs.Transport Proofs.TransportMachine Proofs.TransportServer.
+From FB Require Import Model.Transport Proofs.Transport Proofs.TransportMachine Proofs.TransportServer Proofs.TransportAsync.
 From FB Require Model.Server.
 Import ListNotations.
 Local Open Scope N_scope.
@@ -53,6 +53,24 @@ Proof. exact nonwrite_keeps. Qed.
    addresses; these addresses all lie in writable segments *)
 Theorem C17_run : forall ops st, wf_st st -> exists log rlog, step_post st (snd (vrun ops st)) log rlog.
 Proof. exact vrun_post. Qed.
+
+(* ================= async variants (feature async-io) =================
+   VirtioFsWriter::async_write_from_at has its own marking code (mark_dirty(cnt); mark_used(cnt)); written from that
+   code it is the same state transformer as write_from_at, and so is every other async operation ([desugar]); the
+   statements above therefore hold verbatim for runs [avrun] that mix in async operations *)
+Theorem C17_async_write_from_at_same : forall count src m d b,
+  vw_async_write_from_at count src m d b = vw_write_from count src m d b.
+Proof. exact async_write_from_at_same. Qed.
+Theorem C17_async_op_same : forall a st, avstep a st = vstep (desugar a) st.
+Proof. exact async_op_same. Qed.
+Theorem C17_async_written_marked : forall ops st, wf_st st ->
+  forall a, mget (v_mem (snd (avrun ops st))) a <> mget (v_mem st) a ->
+            v_dirty (snd (avrun ops st)) (a / PS) = true.
+Proof. exact async_written_marked. Qed.
+Theorem C17_async_only_consumed_marked : forall ops st, wf_st st -> NoDup (live (v_wr st)) ->
+  forall p, v_dirty (snd (avrun ops st)) p = true -> v_dirty st p = true \/
+    exists a, a / PS = p /\ In a (live (v_wr st)) /\ ~ In a (live (v_wr (snd (avrun ops st)))).
+Proof. exact async_only_consumed_marked. Qed.
 
 (* ================= whole requests (bridge to the server model, Model/Server.v) =================
    [Server.handle] = [decide] (which calls are made, which reply action) then [perform] on an abstract writer
@@ -125,6 +143,10 @@ Print Assumptions C17_only_written.
 Print Assumptions C17_only_consumed_marked.
 Print Assumptions C17_nonwrite_ops_do_not_mark.
 Print Assumptions C17_run.
+Print Assumptions C17_async_write_from_at_same.
+Print Assumptions C17_async_op_same.
+Print Assumptions C17_async_written_marked.
+Print Assumptions C17_async_only_consumed_marked.
 Print Assumptions C17_whole_request_action.
 Print Assumptions C17_whole_request.
 Print Assumptions C17_whole_request_reply_pages_dirty.
